@@ -241,7 +241,7 @@ Lemma x_set_assoc_XInv s th x p os :
 Proof.
   intros HI Ex Hl Hd. unfold x_set_assoc.
   destruct (take_oracle bi (x_a s) th p os) as [o os'].
-  destruct (oracle_ok (x_a s) o) eqn:Hor; cbn [negb]; auto.
+  destruct (oracle_ok (x_a s) th o) eqn:Hor; cbn [negb]; auto.
   destruct (dom_some_x _ _ _ HI Ex) as [f Ef].
   destruct (set_associated_pool_Inv bi (x_a s) th p o (xi_a _ HI)) as (a' & c & E & Ha & Hf).
   { cbn. rewrite Hor. unfold thr_of in Ef. rewrite Ef. reflexivity. }
@@ -320,7 +320,7 @@ Qed.
 (* ---- core of every "set the associated pool" site ---- *)
 Lemma set_assoc_core s th x p o :
   XInv s -> zfind (x_thr s) th = Some x -> x_loc x <> LPool -> pool_declared s p = true ->
-  oracle_ok (x_a s) o = true ->
+  oracle_ok (x_a s) th o = true ->
   exists a' c, thread_set_associated_pool bi (x_a s) th p o = Some (a', c) /\
     XInv (with_a s a') /\
     (c = ABT_SUCCESS -> exists f', zfind (a_thr a') th = Some f' /\ t_pool f' = p).
@@ -480,7 +480,7 @@ Lemma x_set_assoc_ok s th x p os :
 Proof.
   intros HI Ex Hl Hd. unfold x_set_assoc.
   destruct (take_oracle bi (x_a s) th p os) as [o os'].
-  destruct (oracle_ok (x_a s) o) eqn:Hor; cbn [negb]; auto.
+  destruct (oracle_ok (x_a s) th o) eqn:Hor; cbn [negb]; auto.
   destruct (set_assoc_core s th x p o HI Ex Hl Hd Hor) as (a' & c & E & HI' & Hp).
   rewrite E. split; [exact HI'|]. split; [reflexivity|]. split; [reflexivity|]. exact Hp.
 Qed.
@@ -552,7 +552,7 @@ Proof.
     destruct (zfind (a_thr (x_a s)) th) eqn:Ef; auto.
     destruct (zfind (x_thr s) th) eqn:Ex; auto.
     destruct (next_oracle os) as [o os'].
-    destruct (oracle_ok (x_a s) o) eqn:Hor; cbn [negb]; auto.
+    destruct (oracle_ok (x_a s) th o) eqn:Hor; cbn [negb]; auto.
     destruct (init_pool_Inv bi (x_a s) th p o (xi_a _ HI)) as (a' & c & E & Ha & Hf).
     { cbn. rewrite Hth, Hor, Ef. reflexivity. }
     rewrite E. destruct (init_pool_thr bi _ _ _ _ _ _ E) as [Hs Hn].
@@ -597,7 +597,7 @@ Proof.
     destruct (x_loc x) eqn:El; auto.
     assert (Hl : x_loc x <> LPool) by congruence.
     destruct (take_oracle bi (x_a s) th p os) as [o os'].
-    destruct (oracle_ok (x_a s) o) eqn:Hor; cbn [negb]; auto.
+    destruct (oracle_ok (x_a s) th o) eqn:Hor; cbn [negb]; auto.
     rewrite (unit_set_eq_thread_set bi _ _ _ p o (xi_a _ HI) Ef).
     destruct (set_assoc_core s th x p o HI Ex Hl Hd Hor) as (a' & c & E & HI' & Hp).
     rewrite E. destruct (Z.eqb_spec c ABT_SUCCESS) as [->|Hc]; auto.
@@ -647,7 +647,7 @@ Proof.
     destruct (x_loc x) eqn:El; auto.
     assert (Hl : x_loc x <> LPool) by congruence.
     destruct (take_oracle bi (x_a s) th p os) as [o os'].
-    destruct (oracle_ok (x_a s) o) eqn:Hor; cbn [negb]; auto.
+    destruct (oracle_ok (x_a s) th o) eqn:Hor; cbn [negb]; auto.
     rewrite (unit_set_eq_thread_set bi _ _ _ p o (xi_a _ HI) Ef).
     destruct (set_assoc_core s th x p o HI Ex Hl Hd Hor) as (a' & c & E & HI' & Hp).
     rewrite E. destruct (Z.eqb_spec c ABT_SUCCESS) as [->|Hc]; auto.
